@@ -81,9 +81,9 @@ META["C18"] = dict(
 META["C03"] = dict(
     engine="net",
     design_ref="DESIGN.md 3/C03",
-    technique="property-based testing over real mpx server/clients on loopback: rapid-generated configurations and per-channel scripts, self-describing PRF payloads, prefix/complete-sequence oracle per channel and direction",
-    level_text="Exploration: generated configurations (windows 1 byte..16 MiB, write queue and buffers down to 16 bytes, compression, 1..3 connections, GOMAXPROCS 1/2/16) with up to 24 concurrent channels whose scripts cover both directions at once, payloads on opening and closing frames, closes by SendAndClose/Free/handler return and early ends. Every received message must be exactly the i-th message sent on that channel and direction; the sequence must be complete whenever the receiver read to the end status without ending the channel itself and the sender had finished; no connection may close and no library panic may be logged.",
-    level_note="Interleavings are sampled by the Go scheduler plus generated yields and GOMAXPROCS, not enumerated. Completion uses a 60 s bound per case.",
+    technique="property-based testing over real mpx server/clients on loopback: rapid-generated configurations and per-channel scripts, self-describing PRF payloads, prefix/complete-sequence oracle per channel and direction; a second generator puts 2..4 concurrent sender goroutines on one channel (first Sends of a fresh channel, Sends racing SendAndClose); seeded yields at the library's verif-tagged schedule points widen the race windows",
+    level_text="Exploration: generated configurations (windows 1 byte..16 MiB, write queue and buffers down to 16 bytes, compression, 1..3 connections, GOMAXPROCS 1/2/16) with up to 24 concurrent channels whose scripts cover both directions at once, payloads on opening and closing frames, closes by SendAndClose/Free/handler return and early ends. Every received message must be exactly the i-th message sent on that channel and direction; the sequence must be complete whenever the receiver read to the end status without ending the channel itself and the sender had finished; no connection may close and no library panic may be logged. Shared-channel layer: per lane the delivered messages are seq 0,1,2.. with exact bytes, every Send that returned OK is delivered before the end status, the closing payload arrives last. Readers use the canonical blocking Receive with the handler's channel context.",
+    level_note="Interleavings are sampled by the Go scheduler plus generated yields, GOMAXPROCS and a drawn perturbation plan (seed, level, point set) executed through mpx.VerifSetYieldHook at ten schedule points; they are not enumerated. Completion uses a 60 s bound per case.",
 )
 
 META["C07"] = dict(
@@ -97,9 +97,9 @@ META["C07"] = dict(
 META["C06"] = dict(
     engine="net",
     design_ref="DESIGN.md 3/C06",
-    technique="property-based testing with generated multi-channel histories on a real connection: witness channels with complete-delivery oracles run while many victim channels are ended in generated ways with traffic in flight; plus scripted stale-frame sequences from a wire-level peer",
+    technique="property-based testing with generated multi-channel histories on a real connection: witness channels with complete-delivery oracles run while many victim channels are ended in generated ways with traffic in flight; a stream-density variant (few channels per connection, peer streaming through a large window during the whole end sequence); seeded yields at the library's verif-tagged schedule points (lookup->acquire, load->increment, close dequeued->freed); plus scripted stale-frame sequences from a wire-level peer",
     level_text="Exploration: per case 2..4 witness channels carry verified traffic while 8..120 victim channels are ended by Free, SendAndClose, handler return, handler error or handler panic at drawn points while their peer is still sending; the connection must stay open and usable, witnesses complete and uncorrupted, and the log free of library panics and connection-level errors. A wire-level peer additionally sends data/window/close frames (single and batched, extreme deltas) for ended and unknown channel ids to a real server and a real client, after which a fresh channel must still work.",
-    level_note="Race windows are hit statistically (the lookup/acquire race this property is about reproduces within seconds when the repair is reverted); no schedule enumeration.",
+    level_note="Race windows are widened by a drawn perturbation plan executed through mpx.VerifSetYieldHook and otherwise hit statistically (the lookup/acquire race this property is about reproduces within seconds when the repair is reverted); no schedule enumeration.",
 )
 
 META["C11"] = dict(
@@ -151,6 +151,7 @@ META["C15"] = dict(
     level_note="Hook: verifhook.ParseJSON (build tag verif) = parser.Parse + encoding/json of the tree, no custom dump code.",
 )
 HOOK_COMMITS.append("f09a637")
+HOOK_COMMITS.append("2336b91")
 
 META["C14"] = dict(
     engine="lang",
